@@ -1675,25 +1675,21 @@ func (m *NetworkMachine) ParseStates(states am.S) am.S {
 	m.schemaMx.Lock()
 	defer m.schemaMx.Unlock()
 
-	// check if all states are defined in the schema
+	// keep the known states, in the passed order, without duplicates
 	seen := make(map[string]struct{})
-	dups := false
-	for i := range states {
-		if _, ok := m.schema[states[i]]; !ok {
+	ret := make(am.S, 0, len(states))
+	for _, name := range states {
+		if _, ok := m.schema[name]; !ok {
 			continue
 		}
-		if _, ok := seen[states[i]]; !ok {
-			seen[states[i]] = struct{}{}
-		} else {
-			// mark as duplicated
-			dups = true
+		if _, ok := seen[name]; ok {
+			continue
 		}
+		seen[name] = struct{}{}
+		ret = append(ret, name)
 	}
 
-	if dups {
-		return utils.SlicesUniq(states)
-	}
-	return slices.Collect(maps.Keys(seen))
+	return ret
 }
 
 // OnDispose is [am.Api.OnDispose].
